@@ -195,14 +195,14 @@ def handle : P String := do
     pure s!"ok {showNats (tailShuffle (fun _ => tail) m pre)}"
   | "replay" => do
     -- replay B costs cfg δ trace
-    let B ← mat; let costs ← listOf rat; let cfg ← gqrCfg; let δ ← rat; let tr ← listOf nat
+    let B ← mat; let costs ← listOf rat; let cfg ← gqrCfg; let δs ← listOf rat; let tr ← listOf nat
     if !cfg.inDomain then pure "domain" else
-    let (st, vs) := replay (fun c => costs.getD c 0) cfg.mask δ B tr
+    let (st, vs) := replay (fun c => costs.getD c 0) cfg.mask δs B tr
     pure s!"ok {showNats st.p.toList} | {showVerdicts vs}"
   | "replayv" => do
-    let B ← mat; let costs ← listOf rat; let cfg ← gqrCfg; let δ ← rat; let tr ← listOf nat
+    let B ← mat; let costs ← listOf rat; let cfg ← gqrCfg; let δs ← listOf rat; let tr ← listOf nat
     if !cfg.inDomain then pure "domain" else
-    let (st, vs) := replay (fun c => costs.getD c 0) cfg.mask δ B tr
+    let (st, vs) := replay (fun c => costs.getD c 0) cfg.mask δs B tr
     pure s!"ok {showNats st.p.toList} | {showVerdictsV vs}"
   | "rank" => do
     let B ← mat; let costs ← listOf rat; let cfg ← gqrCfg
